@@ -4,6 +4,13 @@ from shapes import *
 import c02_units as u
 
 
+def run_mir(tier, seed):
+    import sys, pathlib
+    sys.path.insert(0, str(pathlib.Path(__file__).resolve().parent.parent.parent / "mirsmt"))
+    import mir_check, dn
+    return mir_check.run_obligations([dn.ob_sign_arms])
+
+
 def spec(tier, seed):
     b = CertShape()
     certs = [replace(b, san=(1,)), replace(b, issuance=1, aki=True, ku=1, ialg=3), replace(b, issuance=2, eku=(1,), ialg=0, alg=4),
@@ -19,9 +26,8 @@ def spec(tier, seed):
         crls.append(CrlShape(revoked=(2, 0), invalidity=2, idp=2, issuer_ku=4))
     qs = [cert_query("c01", s, O_C01) for s in certs] + [csr_query("c01", s, O_C01) for s in csrs] + [crl_query("c01", s, O_C01) for s in crls]
     qs += u.algid_queries("c01") + u.sign_wrap_queries("c01", tier)
-    return {"queries": qs, "exhaustive": False,
+    return {"queries": qs, "mir": run_mir, "exhaustive": False,
             "bounds": "sign_der on bodies of 0..256 symbolic bytes (both length forms); all 7 algorithm identifiers byte-for-byte against the RFC tables; "
                       "the three artefact kinds x issuance entry points x algorithm table entries, signer success and failure; signature = 2..3 symbolic bytes",
-            "outside": "that ring / aws-lc-rs produce signatures an independent verifier accepts (FFI); the per-key-kind arms Ec/Ed/Rsa of KeyPair::sign "
-                       "(engine M fact); the aws-lc-rs build; artefacts larger than the shapes listed",
+            "outside": "that ring / aws-lc-rs produce signatures an independent verifier accepts (FFI); the aws-lc-rs build; artefacts larger than the shapes listed",
             "assumptions": ["S3: the signer is the caller-side RemoteKeyPair of the harness, logging what it is asked to sign", "S1", "array-backed enum vectors"]}
